@@ -10,9 +10,12 @@ import DadiVerif.Generated.FileIO
    c14.ws                                                    -> ok 9,10,…            (Python whitespace table of the model)
    c14.split <s> | c14.strip <s> | c14.int <s> | c14.fmti n  -> primitives (tokens / string / n or `err reject` / string)
    c14.tofile <comments> <shape> <folded> <labels> <fmi> <data toks> <mask bits>   -> ok <text>      (GENERATED writer)
-   c14.fromfile <mc 0|1> <text>                              -> ok <spectrum> <comments> | err reject
+   c14.fromfile <mc 0|1> <text>                              -> ok <spectrum> <comments> | err reject   (GENERATED reader)
    c14.arr_to <comments> <shape> <data toks>                 -> ok <text>                             (GENERATED writer)
-   c14.arr_from <text>                                       -> ok <shape> <data toks> <comments> | err reject
+   c14.arr_from <text>                                       -> ok <shape> <data toks> <comments> | err reject   (GENERATED reader)
+   c14.open <fname>                                          -> ok <writer opener> <mode> <reader opener> <mode>   (GENERATED dispatch)
+   c14.stripx <l|r|b> <chars | none> <s>                     -> ok <string>   (lstrip/rstrip/strip, optionally with a character set)
+   c14.endswith <suffix> <s> | c14.startswith <prefix> <s>   -> ok 0|1
    c14.filled <data toks> <mask bits>                        -> ok <toks>
    c14.reduce <spectrum>                                     -> ok <pyval> … (GENERATED reduce tuple, in order)
    c14.unpickle <pyval> …                                    -> ok <spectrum> | err reject            (GENERATED)
@@ -125,7 +128,7 @@ def handle (toks : List String) : Option String :=
       some ("ok " ++ encStr (Gen.FileIO.toFile cs sh f l fmi d m))
   | ["c14.fromfile", mc, text] => do
       let mc ← parseBool mc; let text ← decStr text
-      match fromFile mc text with
+      match Gen.FileIO.fromFile mc text with
       | some (fs, comments) => some ("ok " ++ encSpec fs ++ " " ++ encStrs comments)
       | none => some "err reject"
   | ["c14.arr_to", cs, sh, d] => do
@@ -133,9 +136,29 @@ def handle (toks : List String) : Option String :=
       some ("ok " ++ encStr (Gen.FileIO.arrayToFile cs sh d))
   | ["c14.arr_from", text] => do
       let text ← decStr text
-      match arrayFromFile text with
-      | some (sh, d, comments) => some s!"ok {encShape sh} {encStrs d} {encStrs comments}"
+      match Gen.FileIO.arrayFromFile text with
+      | some ((sh, d), comments) => some s!"ok {encShape sh} {encStrs d} {encStrs comments}"
       | none => some "err reject"
+  | ["c14.open", fname] => do
+      let fname ← decStr fname
+      let w := Gen.FileIO.toFileOpen fname; let r := Gen.FileIO.fromFileOpen fname
+      some s!"ok {w.1} {String.ofList w.2} {r.1} {String.ofList r.2}"
+  | ["c14.stripx", kind, cs, s] => do
+      let cs ← decOptStr cs; let s ← decStr s
+      match kind, cs with
+      | "l", none => some ("ok " ++ encStr (lstrip s))
+      | "r", none => some ("ok " ++ encStr (rstrip s))
+      | "b", none => some ("ok " ++ encStr (strip s))
+      | "l", some c => some ("ok " ++ encStr (lstripChars c s))
+      | "r", some c => some ("ok " ++ encStr (rstripChars c s))
+      | "b", some c => some ("ok " ++ encStr (stripChars c s))
+      | _, _ => none
+  | ["c14.endswith", a, s] => do
+      let a ← decStr a; let s ← decStr s
+      some (if endsWith a s then "ok 1" else "ok 0")
+  | ["c14.startswith", a, s] => do
+      let a ← decStr a; let s ← decStr s
+      some (if startsWith a s then "ok 1" else "ok 0")
   | ["c14.filled", d, m] => do
       let d ← decStrs d; let m ← decBits m
       some ("ok " ++ encStrs (filledRow d m))
